@@ -153,7 +153,12 @@ def run_obligation(ctx, ob, cfg):
             else:
                 res.ok_paths += 1
                 items = ob.post(ip, p, r)
+            if len(res.violations) >= 2:
+                break
+            path_violated = False
             for it in items:
+                if path_violated:
+                    break
                 if isinstance(it, Cover):
                     if covers_seen.get(it.label) == 'sat':
                         continue
@@ -188,6 +193,7 @@ def run_obligation(ctx, ob, cfg):
                     p.solver.pop()
                     res.violations.append({'label': it.label, 'what': 'post-condition fails', 'decisions': list(p.dec),
                                            'info': ob.model_info(p, m, r), 'z3model': m})
+                    path_violated = True
                 else:
                     res.inconclusive.append('solver unknown on claim %s' % it.label)
     except Unsupported as e:
@@ -197,7 +203,7 @@ def run_obligation(ctx, ob, cfg):
     res.queries += ex.queries
     res.covers = covers_seen
     for lab, st in covers_seen.items():
-        if st != 'sat':
+        if st != 'sat' and not res.violations:
             res.inconclusive.append('vacuity: cover %r unreachable' % lab)
     if res.ok_paths + res.panics_expected == 0 and not res.violations:
         res.inconclusive.append('vacuity: no path completed')
